@@ -25,6 +25,10 @@ theorem nbd_number_test_ndarray_eq_model (cdf : α → α → α → α) (mean :
     Src.nbd_number_test_ndarray cdf mean n var ε
       = delta12With (fun x => cdf x (nbdParams mean var).1 (nbdParams mean var).2) n ε := rfl
 
+/-- fix D47 pinned: the probability the source hands to `nbinom.cdf` is the single quotient `mean / var` (before the fix
+    it was `1.0 - ((var - mean) / var)` = `(nbdParamsOld mean var).2`; reverting the fix loses this tie) -/
+theorem nbd_number_test_ndarray_upsilon (mean var : α) : (nbdParams mean var).2 = RealOps.div mean var := rfl
+
 theorem nbd_number_test_ndarray_eq_nbdDelta12 [FloorOps α] (mean : α) (n : Nat) (var ε : α) :
     Src.nbd_number_test_ndarray (fun x r p => nbCdf r p x) mean n var ε = nbdDelta12 mean n var ε := rfl
 
